@@ -92,6 +92,12 @@ def _active_sim_context(heap: EventHeap, clock: Clock):
         _clear_active_context()
 
 
+# Process-wide order in which futures resolve.  any_of()/all_of() use it to tell
+# which input resolved first when several inputs have already resolved by the
+# time the combinator is built.
+_resolution_counter = count()
+
+
 def _get_active_heap() -> EventHeap | None:
     """Return the active event heap, or None if no simulation is running."""
     return _active_heap_var.get()
@@ -122,12 +128,14 @@ class SimFuture:
         "_parked_process",
         "_parked_target",
         "_resolved",
+        "_resolved_seq",
         "_settle_callbacks",
         "_value",
     )
 
     def __init__(self) -> None:
         self._resolved: bool = False
+        self._resolved_seq: int | None = None
         self._value: Any = None
 
         # Parked continuation state (set by ProcessContinuation when it yields this)
@@ -200,7 +208,19 @@ class SimFuture:
         """
         if self._resolved:
             return
+        self._settle(value, next(_resolution_counter))
+
+    def _settle(self, value: Any, seq: int | None) -> None:
+        """Resolve with an explicit position in the global resolution order.
+
+        Combinators pass the position of the input that completed them, so a
+        composite counts as resolved when that input resolved, not when the
+        composite happened to be built.
+        """
+        if self._resolved:
+            return
         self._resolved = True
+        self._resolved_seq = seq
         self._value = value
         if self._parked_process is not None:
             self._resume()
@@ -313,8 +333,23 @@ def any_of(*futures: SimFuture) -> SimFuture:
 
     composite = SimFuture()
 
+    # Inputs that resolved before any_of() was called: the winner is the one
+    # that resolved first, not the one listed first.
+    settled = [
+        (-1 if f._resolved_seq is None else f._resolved_seq, i)
+        for i, f in enumerate(futures)
+        if f._resolved
+    ]
+    if settled:
+        _, first = min(settled)
+        winner = futures[first]
+        composite._settle((first, winner._value), winner._resolved_seq)
+        return composite
+
     for i, f in enumerate(futures):
-        f._add_settle_callback(lambda sf, idx=i: composite.resolve((idx, sf._value)))
+        f._add_settle_callback(
+            lambda sf, idx=i: composite._settle((idx, sf._value), sf._resolved_seq)
+        )
 
     return composite
 
@@ -352,15 +387,20 @@ def all_of(*futures: SimFuture) -> SimFuture:
     composite = SimFuture()
     results: list[Any] = [None] * len(futures)
     remaining = len(futures)
+    last_seq: int | None = None
 
     def on_settle(settled: SimFuture, idx: int = 0) -> None:
-        nonlocal remaining
+        nonlocal remaining, last_seq
         if composite._resolved:
             return
         results[idx] = settled._value
+        seq = settled._resolved_seq
+        if seq is not None and (last_seq is None or seq > last_seq):
+            last_seq = seq
         remaining -= 1
         if remaining == 0:
-            composite.resolve(list(results))
+            # resolved when its last input resolved
+            composite._settle(list(results), last_seq)
 
     for i, f in enumerate(futures):
         f._add_settle_callback(lambda sf, i=i: on_settle(sf, i))
